@@ -21,4 +21,4 @@ def run(r):
         c07.regen()
     except Exception as e:
         r.proof_broken.append("translator gen_filters failed: %s" % e)
-    return standard(r, "c08", ["theories/C07/Proofs.vo"], ["theories/C07/Check.vo"], ["bounded", "inner"], classify=classify)
+    return standard(r, "c08", ["theories/C07/Proofs.vo", "theories/C07/BoundedFull.vo"], ["theories/C07/Check.vo"], ["bounded", "inner"], classify=classify)
